@@ -8,11 +8,14 @@ use serde_json::json;
 pub fn run(args: &[String]) -> ! {
     let mut ctx = Ctx::new("C27", Level::ModelChecking, args);
     let quick = ctx.quick();
-    let cfg = Cfg { accts: vec![0, 1, 2, 3, 4], ticks: vec![31, 301], privileged: !quick };
-    let depth = ctx.opt_u64("depth").map(|d| d as u8).unwrap_or(if quick { 5 } else { 7 });
+    let cfg = Cfg { accts: vec![0, 1, 2, 3, 4], ticks: vec![31, 301], privileged: !quick, anon_expired: false };
+    let depth = ctx.opt_u64("depth").map(|d| d as u8).unwrap_or(if quick { 4 } else { 7 });
     let mut w = Auth::new(cfg.clone());
 
     if let Some(r) = ctx.replay.clone() {
+        if r["case"]["world"].as_str() == Some("auth-anonymous-expired") {
+            w = Auth::new(Cfg { accts: vec![2, 0], ticks: vec![], privileged: false, anon_expired: true });
+        }
         match forkdfs::replay(&mut w, &r["case"]["trace"]) {
             Ok(v) => {
                 for (k, what) in v {
@@ -28,13 +31,21 @@ pub fn run(args: &[String]) -> ! {
     let opts = Opts {
         depth,
         procs: ctx.opt_u64("procs").map(|p| p as usize).unwrap_or(2),
-        deadline_s: if quick { 45.0 } else { 1500.0 },
+        deadline_s: if quick { 35.0 } else { 1500.0 },
         log2_slots: 22,
         dedup: true,
         max_samples: 6,
         par_depth: 1,
     };
     let rep = forkdfs::run_into_ctx(&mut ctx, &mut w, &opts, "auth");
+    // second world: the anonymous account itself is outside its validity window
+    {
+        let cfg2 = Cfg { accts: vec![2, 0], ticks: vec![], privileged: false, anon_expired: true };
+        let mut w2 = Auth::new(cfg2);
+        let opts2 = Opts { depth: if quick { 4 } else { 5 }, deadline_s: if quick { 15.0 } else { 300.0 }, ..opts.clone() };
+        let rep2 = forkdfs::run_into_ctx(&mut ctx, &mut w2, &opts2, "auth-anonymous-expired");
+        ctx.set("anonymous_expired_world", json!({"states": rep2.states, "transitions": rep2.transitions, "complete": !rep2.capped}));
+    }
     let outcomes: Vec<&String> = rep.outcomes.keys().collect();
     ctx.set("distinct_outcomes", json!(outcomes));
     if !rep.outcomes.keys().any(|k| k == "success") || !rep.outcomes.keys().any(|k| k.starts_with("denied")) || !rep.outcomes.keys().any(|k| k == "continue") {
